@@ -402,7 +402,47 @@ fn blocked_wake_script() -> Value {
     json!({"acts": [["pause", true], ["write", 300000], ["wake", 1], ["poll", -1], ["poll", 0], ["pause", false], ["poll", 5]], "end": "drop"})
 }
 
+/// `SystemTerminal::open` failing half-way (no file descriptors left for the signal and waker sockets): no object
+/// comes into existence, nothing will ever be dropped - are the line settings still the original ones?
+fn run_open_fails(input: &Value) -> Case {
+    let _g = SERIAL.lock().unwrap_or_else(|e| e.into_inner());
+    let mut j = input.clone();
+    let (master, path) = match open_pty() {
+        Ok(x) => x,
+        Err(e) => {
+            j["impl"] = json!({ "error": e });
+            return Case { coq: "CO false false".into(), json: j, tags: vec!["infra-error".into()], nontrivial: false };
+        }
+    };
+    let before = tcgetattr(master.as_raw_fd());
+    // the lowest free descriptor numbers: the tty takes the first, the socket pair would need two more
+    let used: std::collections::BTreeSet<i32> = std::fs::read_dir("/proc/self/fd")
+        .map(|d| d.filter_map(|e| e.ok()).filter_map(|e| e.file_name().to_string_lossy().parse().ok()).collect())
+        .unwrap_or_default();
+    let mut free = (0..4096).filter(|n| !used.contains(n));
+    let _f1 = free.next().unwrap_or(0);
+    let f2 = free.next().unwrap_or(0);
+    let mut old = libc::rlimit { rlim_cur: 0, rlim_max: 0 };
+    unsafe { libc::getrlimit(libc::RLIMIT_NOFILE, &mut old) };
+    let tight = libc::rlimit { rlim_cur: (f2 + 1) as libc::rlim_t, rlim_max: old.rlim_max };
+    unsafe { libc::setrlimit(libc::RLIMIT_NOFILE, &tight) };
+    let r = SystemTerminal::open(&path);
+    unsafe { libc::setrlimit(libc::RLIMIT_NOFILE, &old) };
+    let failed = r.is_err();
+    drop(r);
+    let after = tcgetattr(master.as_raw_fd());
+    let restored = match (&before, &after) {
+        (Some(b), Some(a)) => termios_key(b) == termios_key(a),
+        _ => false,
+    };
+    j["impl"] = json!({"open_failed": failed, "settings_unchanged": restored});
+    Case { coq: format!("CO {} {}", cbool(failed), cbool(restored)), json: j, tags: vec!["open_fails".into()], nontrivial: true }
+}
+
 pub fn run(input: &Value) -> Case {
+    if input["open_fails"].as_bool().unwrap_or(false) {
+        return run_open_fails(input);
+    }
     if !input["stress"].is_null() {
         run_stress(input)
     } else if input["blocked_wake"].as_bool().unwrap_or(false) {
@@ -494,9 +534,8 @@ fn gen_script(rng: &mut Rng) -> Value {
         1 => "render_quit",
         _ => "drop",
     };
-    // a hang-up only when no SIGWINCH can be outstanding: its handling asks the (gone) tty for its size and the
-    // error of that ioctl is outside the model
-    if owed == 0 && rng.chance(1, 8) {
+    // a hang-up at any point (with a SIGWINCH outstanding the size query of its handling fails on the dead tty)
+    if rng.chance(1, 8) {
         acts.push(json!(["hup"]));
         acts.push(json!(["poll", 0]));
         return json!({"acts": acts, "end": "drop"});
@@ -519,6 +558,7 @@ pub fn generate(rng: &mut Rng, n: usize, _tier: &str) -> Vec<Value> {
     v.push(json!({"acts": [["pause", true], ["write", 300000], ["poll", 3]], "end": "drop_paused"}));
     v.push(json!({"stress": {"threads": 4, "wakes": 300}}));
     v.push(json!({"blocked_wake": true}));
+    v.push(json!({"open_fails": true}));
     v.push(json!({"acts": [["poll_wake", 20], ["poll", 0], ["poll_winch", 15], ["poll", 0]], "end": "drop"}));
     v.push(json!({"acts": [["write", 9000], ["wake", 2], ["eagain", 500], ["poll", -1], ["poll", 0], ["poll", 3]], "end": "drop"}));
     v.push(json!({"acts": [["write", 3000], ["in", "ab"], ["poll", 0], ["write", 50], ["eagain", 400], ["poll", 20], ["poll", 0], ["poll", 0]], "end": "drop"}));
